@@ -23,13 +23,54 @@ func (c *Ctx) argsElem(v ssa.Value) (int64, bool) {
 	}
 	k, ok := constInt(ia.Index)
 	if !ok {
-		return 0, false
+		// an index that is 0 or 1 on every path (the CTCP forms carry the target second), possibly computed by a helper
+		if !c.targetIndexValue(ia.Index, 0) {
+			return 0, false
+		}
+		k = 0
 	}
 	fv, _ := loadedField(ia.X)
 	if fv == nil || fv.Name() != "Args" || fv != c.FieldVar(c.Client, "Line", "Args") {
 		return 0, false
 	}
 	return k, true
+}
+
+// targetIndexValue: v is 0 or 1 on every path: a constant, a phi of such, or
+// the result of a module function all of whose results are such (a result of
+// -1, "no target", is accepted: it cannot be used as an index without a panic).
+func (c *Ctx) targetIndexValue(v ssa.Value, depth int) bool {
+	if depth > 4 {
+		return false
+	}
+	if k, ok := constInt(v); ok {
+		return k == 0 || k == 1 || (depth > 0 && k == -1)
+	}
+	switch t := v.(type) {
+	case *ssa.Phi:
+		for _, e := range t.Edges {
+			if e != ssa.Value(t) && !c.targetIndexValue(e, depth+1) {
+				return false
+			}
+		}
+		return len(t.Edges) > 0
+	case *ssa.Call:
+		callee := t.Call.StaticCallee()
+		if callee == nil || t.Call.IsInvoke() || !c.InModuleFn(callee) {
+			return false
+		}
+		ok, n := true, 0
+		funcInstrs(callee, func(in ssa.Instruction) {
+			if rt, isR := in.(*ssa.Return); isR && len(rt.Results) == 1 {
+				n++
+				if !c.targetIndexValue(retVal(rt, 0), depth+1) {
+					ok = false
+				}
+			}
+		})
+		return ok && n > 0
+	}
+	return false
 }
 
 // c01Accessors adds R8 (handlers get their own copy of the parsed line) and
